@@ -3,7 +3,8 @@
    the model (children, parent, degrade, sibling test, loop ranges, cache reset) are
    regenerated from regions.py into Gen/Regions.v on every run. *)
 From Coq Require Import ZArith Bool List.
-From Aegean Require Import Gen.Regions Model.RegionModel Model.RegionSpec Proofs.RegionProofs.
+From Aegean Require Import Gen.Regions Gen.RegionOps Model.RegionModel Model.RegionSpec Model.RegionOps Proofs.RegionProofs
+  Proofs.RegionOpsProofs.
 Import ListNotations.
 Open Scope Z_scope.
 
@@ -32,6 +33,14 @@ Theorem C08_refines_history : forall D ops, 1 <= D -> Forall (op_ok D) ops ->
 Proof. exact history_refines. Qed.
 
 (* the closed form `cover` really is "all descendants by the generated children function" *)
+(* the three same-depth operations of the model ARE the operations of the source: rebuilt from the Python set method each of
+   regions.Region.without / intersect / symmetric_difference applies (Gen/RegionOps.v, re-read on every run: difference_update,
+   intersection_update, symmetric_difference_update inside the skeleton guard; _demote_all; operand copy; method; _renorm) they
+   coincide with the operations the refinement theorems above are about *)
+Theorem C08_setops_follow_the_source : forall s o,
+  without_src s o = without s o /\ intersect_src s o = intersect s o /\ symdiff_src s o = symdiff s o.
+Proof. exact setops_follow_source. Qed.
+
 Theorem C08_cover_is_descendants : forall D d p q, 1 <= d <= D -> 0 <= p ->
   (In q (expand (Z.to_nat (D - d)) p) <-> cover D (d, p) q).
 Proof. exact expand_cover. Qed.
@@ -118,6 +127,7 @@ Print Assumptions C08_reachable_inv.
 Print Assumptions C08_step_inv.
 Print Assumptions C08_refines_step.
 Print Assumptions C08_refines_history.
+Print Assumptions C08_setops_follow_the_source.
 Print Assumptions C08_cover_is_descendants.
 Print Assumptions C08_normal_form.
 Print Assumptions C08_queries_pure.
